@@ -170,8 +170,16 @@ def run_scenario(sc):
 
         def call(sample, seed):
             np.random.seed(seed)
-            return FlowCal.mef.get_transform_fxn(sample, mef_values, mef_channels, clustering_fxn=clustering,
-                                                 clustering_channels=cl, statistic_fxn=statf, full_output=True)
+            # the caller's own lists: after the calibration they are reused for something else (reordered in place);
+            # the calibration that was returned must not depend on them any more
+            mc, mv = list(mef_channels), [list(v) for v in mef_values]
+            res = FlowCal.mef.get_transform_fxn(sample, mv, mc, clustering_fxn=clustering,
+                                                clustering_channels=cl, statistic_fxn=statf, full_output=True)
+            mc.reverse()
+            mv.reverse()
+            for v in mv:
+                v.reverse()
+            return res
         margin_ok = True
         for c in range(nch):
             rg = s.range(mef_channels[c])
